@@ -334,3 +334,57 @@ pub fn request(args: &[String]) -> anyhow::Result<()> {
     println!("{}", json!({"hex": util::hex(&rc::ss2022_request(c, &password, &r).out)}));
     Ok(())
 }
+
+/// impl -> spec, salt cache: `threads` connections of one server (one shared context) present the very same Shadowsocks 2022
+/// request at the same moment (spin barrier), round after round, each round with a fresh request. One event per round for
+/// TraceSharedState: SameHandshake(copies, accepted) - exactly one copy may be accepted.
+pub fn salt_stress(args: &[String]) -> anyhow::Result<()> {
+    use std::sync::atomic::AtomicUsize;
+    let o = util::opts(args);
+    let seed = util::opt_u64(&o, "seed", 1);
+    let threads = util::opt_u64(&o, "threads", 8) as usize;
+    let rounds = util::opt_u64(&o, "rounds", 1500) as usize;
+    let out = o.get("out").cloned().unwrap_or_else(|| "c09-salt.ndjson".to_owned());
+    util::quiet_panics();
+    let mut rng = SmallRng::seed_from_u64(seed);
+    let mut f = std::io::BufWriter::new(std::fs::File::create(&out)?);
+    use std::io::Write;
+    let mut worst = 0usize;
+    let mut bad_rounds = 0usize;
+    for (c, users) in [(Cipher::Aes128Gcm2022, 0usize), (Cipher::Aes256Gcm2022, 2), (Cipher::ChaCha20Poly1305_2022, 0)] {
+        let listener = Arc::new(octo_squirrel_server::server::verif::listener(&sut::ss_server_cfg(c, users))?);
+        let requests: Arc<Vec<Vec<u8>>> = Arc::new((0..rounds).map(|_| crate::c10::request_bytes(c, users, rc::unix_now(), 0, &mut rng)).collect());
+        let arrived = Arc::new(AtomicUsize::new(0));
+        let accepted: Arc<Vec<AtomicUsize>> = Arc::new((0..rounds).map(|_| AtomicUsize::new(0)).collect());
+        let mut hs = Vec::new();
+        for _ in 0..threads {
+            let (l, reqs, arrived, accepted) = (listener.clone(), requests.clone(), arrived.clone(), accepted.clone());
+            hs.push(std::thread::spawn(move || {
+                for r in 0..reqs.len() {
+                    // spin barrier: everybody starts round r together
+                    arrived.fetch_add(1, Ordering::SeqCst);
+                    while arrived.load(Ordering::SeqCst) < (r + 1) * threads {
+                        std::hint::spin_loop();
+                    }
+                    if crate::c10::present(&l, &reqs[r]).verdict() == "accept" {
+                        accepted[r].fetch_add(1, Ordering::SeqCst);
+                    }
+                }
+            }));
+        }
+        for h in hs {
+            let _ = h.join();
+        }
+        for a in accepted.iter() {
+            let k = a.load(Ordering::SeqCst);
+            worst = worst.max(k);
+            if k != 1 {
+                bad_rounds += 1;
+            }
+            writeln!(f, "{}", json!({"ev": "SameHandshake", "copies": threads, "accepted": k, "conf": c.name()}))?;
+        }
+    }
+    f.flush()?;
+    println!("{}", json!({"rounds": rounds * 3, "threads": threads, "bad_rounds": bad_rounds, "most_accepted": worst, "trace": out}));
+    Ok(())
+}
